@@ -1,5 +1,5 @@
 (* C16 -- proofs about lib/Reconnector.v + gen/ReconnectorGen.v (the translated methods). *)
-From Coq Require Import QArith Qminmax Qround List Bool Arith Lia Lqa.
+From Coq Require Import ZArith QArith Qminmax Qround List Bool Arith Lia Lqa.
 Import ListNotations.
 Require Import Verif.lib.ReconnectorBase Verif.gen.ReconnectorGen Verif.lib.Reconnector.
 Local Open Scope Q_scope.
@@ -502,6 +502,118 @@ Proof.
   - intros He. cbn [enabled] in He. unfold timer_truthy in He. cbn [timer] in He.
     destruct tm; [|discriminate]. cbn in Hc. exec. repeat split. lia.
 Qed.
+
+
+(* ------------------------------------------------------------------ 6. the environment, derived from the outputs
+   What the Tub / a RemoteReference / the reactor hold for the Reconnector is determined by what the translated methods
+   DID (getReference called, watcher registered, callLater, cancel) and by which of those have fired since -- not by the
+   counters of the model state.  The ledger below is computed from the outputs and the events alone; the theorem says
+   it always equals the counters, so `enabled` (a Deferred / watcher / timer can only fire if there is one) is exactly
+   "the translated methods created it and it has neither fired nor been cancelled". *)
+Local Open Scope Z_scope.
+Definition ledger := (Z * Z * Z)%type.     (* Deferreds of getReference not yet fired, watchers not yet fired, pending DelayedCalls *)
+Definition led_out (v : ledger) (o : out) : ledger :=
+  match v with (d, w, t) =>
+    match o with
+    | OGetRef => (d + 1, w, t)
+    | OWatch => (d, w + 1, t)
+    | OSetTimer _ => (d, w, t + 1)
+    | OCancelTimer => (d, w, t - 1)
+    | _ => v
+    end end.
+Definition led_event (v : ledger) (e : event) : ledger :=
+  match v with (d, w, t) =>
+    match e with
+    | AttemptOk _ | AttemptFail _ => (d - 1, w, t)
+    | Lost => (d, w - 1, t)
+    | TimerExpired => (d, w, t - 1)
+    | _ => v
+    end end.
+Fixpoint led_run (s : st) (v : ledger) (evs : list event) : ledger :=
+  match evs with
+  | [] => v
+  | e :: r => let (s1, o1) := step s e in led_run s1 (fold_left led_out o1 (led_event v e)) r
+  end.
+Definition led_ok (s : st) (v : ledger) : Prop :=
+  v = (Z.of_nat (inflight s), Z.of_nat (watching s), Z.of_nat (timer_count s + leaked s)).
+
+Lemma led_uops : forall u s v, led_ok s v ->
+  led_ok (fst (run s (map uop_event u))) (fold_left led_out (snd (run s (map uop_event u))) v).
+Proof.
+  induction u as [|o u IH]; intros s v H; cbn [map run fst snd fold_left]; [exact H|].
+  assert (H1 : led_ok (fst (step s (uop_event o))) (fold_left led_out (snd (step s (uop_event o))) v)).
+  { unfold led_ok in *. subst v. destruct s as [a sp t d tm i w l inf]. destruct o; cbn [uop_event]; exec;
+      destruct tm; exec; try destruct t; exec; cbn [fold_left led_out timer_count inflight watching leaked timer]; f_equal; try f_equal; lia. }
+  destruct (step s (uop_event o)) as [s1 o1]. cbn [fst snd] in *. specialize (IH s1 _ H1).
+  destruct (run s1 (map uop_event u)) as [s2 o2]. cbn [fst snd] in *. rewrite fold_left_app. exact IH.
+Qed.
+
+Lemma led_step : forall s e v, enabled s e = true -> led_ok s v ->
+  led_ok (fst (step s e)) (fold_left led_out (snd (step s e)) (led_event v e)).
+Proof.
+  intros s e v EN H. destruct e as [|u|z| | | | |].
+  - unfold led_ok in *. subst v. destruct s as [a sp t d tm i w l inf]. exec. destruct sp; exec;
+      cbn [fold_left led_out led_event timer_count inflight watching leaked timer]; destruct tm; cbn [timer_count timer]; f_equal; try f_equal; lia.
+  - rewrite ok_reentrant.
+    assert (H0 : led_ok (fst (step s (AttemptOk []))) (fold_left led_out (snd (step s (AttemptOk []))) (led_event v (AttemptOk u)))).
+    { unfold led_ok in *. subst v. destruct s as [a sp t d tm i w l inf]. cbn [enabled inflight] in EN. apply Nat.ltb_lt in EN.
+      destruct i as [|i]; [lia|]. exec. destruct a; exec;
+        cbn [fold_left led_out led_event timer_count inflight watching leaked timer]; destruct tm; cbn [timer_count timer]; f_equal; try f_equal; lia. }
+    destruct (active s); [|exact H0].
+    destruct (step s (AttemptOk [])) as [s1 o1]. cbn [fst snd] in *.
+    pose proof (led_uops u s1 _ H0) as H2. destruct (run s1 (map uop_event u)) as [s2 o2]. cbn [fst snd] in *.
+    rewrite fold_left_app. exact H2.
+  - unfold led_ok in *. subst v. destruct s as [a sp t d tm i w l inf]. cbn [enabled inflight] in EN. apply Nat.ltb_lt in EN.
+    destruct i as [|i]; [lia|]. exec. destruct a; exec; try destruct (q_truthy jitter); exec;
+      cbn [fold_left led_out led_event timer_count inflight watching leaked timer]; destruct tm; cbn [timer_count timer]; f_equal; try f_equal; lia.
+  - unfold led_ok in *. subst v. destruct s as [a sp t d tm i w l inf]. cbn [enabled watching] in EN. apply Nat.ltb_lt in EN.
+    destruct w as [|w]; [lia|]. exec. destruct a; exec;
+      cbn [fold_left led_out led_event timer_count inflight watching leaked timer]; destruct tm; cbn [timer_count timer]; f_equal; try f_equal; lia.
+  - unfold led_ok in *. subst v. destruct s as [a sp t d tm i w l inf]. cbn [enabled] in EN. unfold timer_truthy in EN. cbn [timer] in EN.
+    destruct tm; [|discriminate]. exec. cbn [fold_left led_out led_event timer_count inflight watching leaked timer]. f_equal; try f_equal; lia.
+  - unfold led_ok in *. subst v. destruct s as [a sp t d tm i w l inf]. exec. cbn [fold_left led_event].
+    destruct tm; cbn [timer_count timer inflight watching leaked]; reflexivity.
+  - pose proof (led_uops [UReset] s v H) as X. cbn [map uop_event run] in X. destruct (step s Reset) as [s1 o1].
+    cbn [fst snd] in *. rewrite app_nil_r in X. destruct v as [[? ?] ?]. exact X.
+  - pose proof (led_uops [UStop] s v H) as X. cbn [map uop_event run] in X. destruct (step s Stop) as [s1 o1].
+    cbn [fst snd] in *. rewrite app_nil_r in X. destruct v as [[? ?] ?]. exact X.
+Qed.
+
+Theorem ledger_agrees : forall evs s v, led_ok s v -> permitted s evs -> led_ok (fst (run s evs)) (led_run s v evs).
+Proof.
+  induction evs as [|e r IH]; intros s v H HP; cbn [run led_run permitted] in *; [exact H|].
+  destruct HP as [He HP]. pose proof (led_step s e v He H) as H1.
+  destruct (step s e) as [s1 o1]. cbn [fst snd] in *. specialize (IH s1 _ H1 HP). destruct (run s1 r). exact IH.
+Qed.
+
+(* an event of the environment is enabled iff the ledger -- what the methods created minus what fired or was cancelled --
+   holds such a thing *)
+Theorem enabled_is_ledger : forall evs, permitted init_state evs ->
+  let s := fst (run init_state evs) in
+  match led_run init_state (0, 0, 0) evs with (d, w, t) =>
+    (forall u, enabled s (AttemptOk u) = true <-> 0 < d) /\ (forall z, enabled s (AttemptFail z) = true <-> 0 < d) /\
+    (enabled s Lost = true <-> 0 < w) /\ (enabled s TimerExpired = true <-> 0 < t) /\
+    d = Z.of_nat (inflight s) /\ w = Z.of_nat (watching s) /\ t = Z.of_nat (timer_count s)
+  end.
+Proof.
+  intros evs HP s. assert (H0 : led_ok init_state (0, 0, 0)) by reflexivity.
+  pose proof (ledger_agrees evs init_state _ H0 HP) as H. fold s in H.
+  destruct (one_activity evs HP) as (HL & _). fold s in HL.
+  destruct (led_run init_state (0, 0, 0) evs) as [[d w] t]. unfold led_ok in H. inversion H; subst. rewrite HL, Nat.add_0_r.
+  assert (G : forall n, (0 <? n)%nat = true <-> 0 < Z.of_nat n) by (intros n; rewrite Nat.ltb_lt; lia).
+  split; [intros u; cbn [enabled]; apply G|].
+  split; [intros z; cbn [enabled]; apply G|].
+  split; [cbn [enabled]; apply G|].
+  split; [|split; [reflexivity | split; reflexivity]].
+  cbn [enabled]. unfold timer_truthy, timer_count. destruct (timer s); split; intros X; try reflexivity; try discriminate; cbn in *; lia.
+Qed.
+
+Example ex_ledger : led_run init_state (0, 0, 0) [Start; AttemptFail (1 # 2); TimerExpired; AttemptOk [UReset]; Lost; Stop] = (0, 0, 0)
+  /\ led_run init_state (0, 0, 0) [Start; AttemptFail (1 # 2)] = (0, 0, 1).
+Proof. vm_compute. split; reflexivity. Qed.
+
+Local Close Scope Z_scope.
+Local Open Scope Q_scope.
 
 (* ------------------------------------------------------------------ non-vacuity of the hypotheses *)
 
